@@ -87,6 +87,12 @@ type shField struct {
 	Zero      bool      `json:"zero"`
 	NilIface  bool      `json:"nilIface"`
 	Sub       []shField `json:"sub"`
+	// for the discovery of the profile field
+	Name     string `json:"name"`
+	CborKey  string `json:"cborKey"`
+	HasCbor  bool   `json:"hasCbor"`
+	HasJSON  bool   `json:"hasJson"`
+	JSONName string `json:"jsonName"`
 }
 
 func describe(v reflect.Value, fmtName string) []shField {
@@ -115,7 +121,13 @@ func describe(v reflect.Value, fmtName string) []shField {
 			out = append(out, f)
 			continue
 		}
-		f := shField{Kind: "field", Key: zeroKey, Sub: []shField{}, Zero: fv.IsZero()}
+		f := shField{Kind: "field", Key: zeroKey, Sub: []shField{}, Zero: fv.IsZero(), Name: sf.Name}
+		if ct, ok := sf.Tag.Lookup("cbor"); ok {
+			f.HasCbor, f.CborKey = true, strings.Split(ct, ",")[0]
+		}
+		if jt, ok := sf.Tag.Lookup("json"); ok {
+			f.HasJSON, f.JSONName = true, strings.Split(jt, ",")[0]
+		}
 		if tag, ok := sf.Tag.Lookup(fmtName); ok {
 			f.Tagged = true
 			parts := strings.Split(tag, ",")
@@ -528,6 +540,26 @@ func init() {
 				}
 			}
 		}
+		// discovery of the profile field (what RegisterProfile relies on)
+		tagFamily := []struct {
+			name string
+			val  any
+		}{
+			{"P1Claims", blankClaims("P1", "x")}, {"P2Claims", blankClaims("P2", "x")}, {"X1", NewX1Claims()}, {"X2", NewX2Claims()},
+			{"X3", NewX3Claims()}, {"X4", GenProfile{"http://example.com/n1", "X4"}.GetClaims()}, {"X5", &X5Claims{}}, {"X6", &X6Claims{}},
+			{"byName", &TgByName{}}, {"byNameNoJSON", &TgByNameNoJSON{}}, {"keyNoJSON", &TgKeyNoJSON{}}, {"nameWithOtherKey", &TgNameWithOtherKey{}},
+			{"nameThenKey", &TgNameThenKey{}}, {"nested2", &TgNested2{}}, {"ifaceNil", &TgIface{}}, {"ifaceSet", &TgIface{TgMarker: &TgInner{}}},
+			{"twoEmbedsSecond", &TgTwoEmbeds{}}, {"embedNoJSONFirst", &TgEmbedNoJSONFirst{}}, {"flatNone", &ShFlat2{}}, {"top", &ShTop{}},
+		}
+		for _, tf := range tagFamily {
+			ev := map[string]any{"b": b, "i": 0, "op": "ProfileTag", "type": tf.name, "shape": describe(reflect.ValueOf(tf.val), "cbor")}
+			var tag string
+			var err error
+			pan := safely(func() { tag, err = encoding.GetProfileJSONTag(tf.val) })
+			ev["ok"], ev["tag"], ev["panicked"] = err == nil && !pan, tag, pan
+			t.Emit(ev, true, true)
+			b++
+		}
 		// synthetic flat structs around the header boundaries
 		sizes := []int{0, 1, 22, 23, 24, 25, 254, 255, 256, 257, 2048}
 		if a.Tier == "thorough" {
@@ -579,4 +611,53 @@ func init() {
 		_ = psatoken.Profile1Name
 		t.Close(nil)
 	}
+}
+
+// ---- types for the discovery of the profile field ----
+type TgByName struct {
+	A       *int    `cbor:"1,keyasint" json:"a"`
+	Profile *string `json:"the-profile"`
+}
+type TgByNameNoJSON struct {
+	Profile *string
+}
+type TgKeyNoJSON struct {
+	P *string `cbor:"265,keyasint"`
+}
+type TgNameWithOtherKey struct { // named Profile but carrying another cbor key: not a profile field
+	Profile *string `cbor:"7,keyasint" json:"profile-ish"`
+}
+type TgNameThenKey struct { // the cbor key wins over the field name
+	Profile *string `json:"by-name"`
+	Q       *string `cbor:"-75000,keyasint" json:"by-key"`
+}
+type TgInner struct {
+	Z *string `cbor:"265,keyasint" json:"inner-profile"`
+}
+
+func (*TgInner) TgMark() {}
+
+type TgMid struct {
+	M *int `cbor:"3,keyasint" json:"m"`
+	TgInner
+}
+type TgNested2 struct {
+	N *int `cbor:"4,keyasint" json:"n"`
+	TgMid
+}
+type TgMarker interface{ TgMark() }
+type TgIface struct {
+	I *int `cbor:"5,keyasint" json:"i"`
+	TgMarker
+}
+type TgNoProfile struct {
+	K *int `cbor:"8,keyasint" json:"k"`
+}
+type TgTwoEmbeds struct {
+	TgNoProfile
+	TgInner
+}
+type TgEmbedNoJSONFirst struct { // the first embedded struct has a profile field without json tag: an error, not "keep looking"
+	TgKeyNoJSON
+	TgInner
 }
